@@ -12,7 +12,7 @@ CLOSED LIST of recognised Eigen / nano-tensor operations = ASSUMED contracts of 
   coefficient-wise  a+b a-b a*b a/b -a (array-array, array-scalar, scalar-array), .abs() .square() .cube() .exp() .log() .atan()
                     .sign() [1 / 0 / -1] .max(s) .min(s) .sqrt(), comparisons array < scalar (boolean array)
   adaptors          .array() .matrix() .vector() .transpose() (1-D), copy construction
-  reductions        .sum() .dot(b) .squaredNorm() .lpNorm<1>() .mean() .count() .maxCoeff() .maxCoeff(&idx) .minCoeff(&idx)
+  reductions        .sum() .dot(b) .squaredNorm() .lpNorm<1>() .lpNorm<Eigen::Infinity>() [-> (nv_linf |c_i|), see specs/C05/kkt.py] .mean() .count() .maxCoeff() .maxCoeff(&idx) .minCoeff(&idx)
   element access    a(k)  (generic mode: k must be the loop index, a named obligation)
   assignment        a = e, a += e, a -= e, a *= e, a /= e, a.full(s), a.array() = ...
   concrete only     .segment(b, len), .size(), matrix * vector, matrix.transpose() * vector, matrix.row(k)
@@ -606,8 +606,19 @@ class EigWP(IdEnvWP):
             if o.kind != 'Real':
                 raise Unsupported(f'{self.name}: {name}() of a boolean array')
             if name == 'lpNorm':
-                if self.member_template_args(me) != ['1']:
-                    raise Unsupported(f'{self.name}: lpNorm with template arguments {self.member_template_args(me)}')
+                targs = self.member_template_args(me)
+                if targs in (['Eigen::Infinity'], ['Infinity']):
+                    # ASSUMED contract: max_k |c_k| (0 for an empty vector).  Generic mode: the reduction node `(nv_linf phi)` over the
+                    # coefficient term phi = |c_i| (a DIFFERENT node than `(nv_sum phi)` of lpNorm<1>); whoever prints it owns its facts
+                    # (specs/C05/kkt.py: one constant per distinct phi, linf >= phi at the generic coordinate, linf >= 0)
+                    if self.dim is None:
+                        return V(f'(nv_linf {rabs(o.c[0])})', 'Real', 'double')
+                    r = '0.0'
+                    for t in o.c:
+                        r = rmax(r, rabs(t))
+                    return V(r, 'Real', 'double')
+                if targs != ['1']:
+                    raise Unsupported(f'{self.name}: lpNorm with template arguments {targs}')
                 return V(self.reduce([rabs(t) for t in o.c]), 'Real', 'double')
             if name == 'squaredNorm':
                 return V(self.reduce([f'(* {t} {t})' for t in o.c]), 'Real', 'double')
